@@ -115,6 +115,13 @@ fn gen_word(rng: &mut Rng) -> (u32, &'static str) {
 
 const CENTER: u64 = 0x0000_0000_0010_0000;
 
+/// where the instruction stands: mostly a low text address; one case in four just below 4 GiB (pc-relative
+/// targets cross it) or far above it (addresses that do not fit 32 bits)
+fn pick_pc64(rng: &mut Rng) -> u64 {
+    let base = if rng.chance(3, 4) { 0x40_0000 } else { *rng.pick(&[0xffff_c000u64, 0x1_0000_0000, 0x7f12_3440_0000, 0x0000_ffff_ffc0_0000]) };
+    base + 4 * rng.below(0x1000)
+}
+
 fn gen_reg_value(rng: &mut Rng) -> u64 {
     match rng.below(10) {
         0..=3 => CENTER.wrapping_add(rng.below(0x100)).wrapping_sub(0x80) & !((1 << rng.below(4)) - 1),
@@ -169,7 +176,7 @@ fn cpu_json(cpu: &A64Cpu, word: u32, pc: u64) -> Value {
 
 impl C03 {
     fn one(&self, ctx: &mut Ctx, rng: &mut Rng, word: u32, tname: &str, big: bool, fixed_cpu: Option<A64Cpu>) {
-        let pc: u64 = 0x40_0000 + 4 * rng.below(0x1000);
+        let pc: u64 = pick_pc64(rng);
         let mut cpu0 = fixed_cpu.unwrap_or_else(|| gen_cpu(rng, big));
         let class = match a64ref::class_of(word) {
             Some(c) => c,
@@ -354,7 +361,7 @@ impl C03 {
     /// operation or leaves the block through a successor) and the whole state is compared. Observes what single-
     /// instruction cases cannot: state carried from one instruction of a block to the next, block-relative addresses.
     fn block(&self, ctx: &mut Ctx, rng: &mut Rng, big: bool) {
-        let pc: u64 = 0x40_0000 + 4 * rng.below(0x1000);
+        let pc: u64 = pick_pc64(rng);
         let mut cpu0 = gen_cpu(rng, big);
         let lift = |bytes: &[u8], at: u64| guard(|| if big { AArch64Eb::new().translate_block(bytes, at, &Options::default()) } else { AArch64::new().translate_block(bytes, at, &Options::default()) });
         let accepts = |w: u32, at: u64| matches!(lift(&w.to_le_bytes(), at), Ok(Ok(ref b)) if !b.instructions().is_empty());
